@@ -240,12 +240,10 @@ theorem sumAxis_indicator {α} [AddCommMonoid α] (a : Arr α) (x : Nat)
     exact mem_range.mpr (getD_lt_of_inB _ _ x (unflat_inB _ _ hf.1) hx)
   · intro i hi
     have hb := insertAt_inB a.shape x _ i hx (mem_range.mp hi) hk
-    simp only []
     rw [unflat_flat _ _ hb, getD_insertAt _ _ _ _ hkl]
   · intro f hf
     simp only [mem_filter, mem_range] at hf
     have hb := unflat_inB _ _ hf.1
-    simp only []
     rw [← hf.2, insertAt_removeAt _ _ _ (by rw [InB_length _ _ hb]; exact hx), flat_unflat _ _ hf.1]
   · intro i _
     simp only [C19.viewElem, List.getD_eq_getElem?_getD]
@@ -270,5 +268,344 @@ theorem sumAxis_mass {α} [AddCommMonoid α] (a : Arr α) (x : Nat)
   exact sum_indicator_mass _ _ _ _ (fun f => flat (removeAt a.shape x) (removeAt (unflat a.shape f) x))
     (fun f hf => flat_lt _ _ (removeAt_inB _ _ x (unflat_inB _ _ hf)))
     (fun f hf t ht => removeAt_unflat_eq_iff _ _ _ _ hf ht)
+
+/-! ### the marginal specification and its composition -/
+
+/-- `b` is the marginal of `a` over the axes listed in `A`: shape = remaining axes in original order, entry `t` =
+    sum of the entries of `a` whose index agrees with `t` on the remaining axes. -/
+def IsMarg {α} [AddCommMonoid α] (A : List Nat) (a b : Arr α) : Prop :=
+  b.shape = dropIdx A a.shape ∧
+  b.data = (List.range (size (dropIdx A a.shape))).map (fun t =>
+    ∑ f ∈ range (size a.shape),
+      if dropIdx A (unflat a.shape f) = unflat (dropIdx A a.shape) t then a.data.getD f 0 else 0)
+
+theorem IsMarg.unique {α} [AddCommMonoid α] {A : List Nat} {a b c : Arr α}
+    (hb : IsMarg A a b) (hc : IsMarg A a c) : b = c := by
+  cases b; cases c
+  obtain ⟨h1, h2⟩ := hb
+  obtain ⟨h3, h4⟩ := hc
+  simp only at h1 h2 h3 h4
+  rw [h1, h2, h3, h4]
+
+theorem IsMarg.congr {α} [AddCommMonoid α] {A B : List Nat} {a b : Arr α}
+    (h : ∀ i, i ∈ A ↔ i ∈ B) (hb : IsMarg A a b) : IsMarg B a b := by
+  unfold IsMarg at hb ⊢
+  simp only [dropIdx_congr A B _ h] at hb
+  exact hb
+
+theorem IsMarg.data_length {α} [AddCommMonoid α] {A : List Nat} {a b : Arr α}
+    (hb : IsMarg A a b) : b.data.length = size b.shape := by
+  rw [hb.1, hb.2]; simp
+
+theorem IsMarg_nil {α} [AddCommMonoid α] (a : Arr α) (hlen : a.data.length = size a.shape) :
+    IsMarg [] a a := by
+  refine ⟨(dropIdx_nil_left _).symm, ?_⟩
+  simp only [dropIdx_nil_left]
+  conv_lhs => rw [list_eq_map_getD a.data 0, hlen]
+  apply List.map_congr_left
+  intro t ht
+  have ht' := List.mem_range.mp ht
+  have : ∀ f ∈ range (size a.shape),
+      (if unflat a.shape f = unflat a.shape t then a.data.getD f 0 else 0)
+        = if t = f then a.data.getD f 0 else 0 := by
+    intro f hf
+    have hf' := mem_range.mp hf
+    by_cases he : t = f
+    · subst he; simp
+    · rw [if_neg he, if_neg]
+      intro h
+      apply he
+      rw [← flat_unflat _ _ ht', ← flat_unflat _ _ hf', h]
+  rw [Finset.sum_congr rfl this, Finset.sum_ite_eq, if_pos (mem_range.mpr ht')]
+
+theorem IsMarg_step {α} [AddCommMonoid α] (a c : Arr α) (x : Nat) (A : List Nat)
+    (hlen : a.data.length = size a.shape) (hx : x < a.shape.length) (hxA : x ∉ A)
+    (hc : IsMarg (A.map (fun y => if y > x then y - 1 else y)) (a.sumAxis x) c) :
+    IsMarg (x :: A) a c := by
+  obtain ⟨hs, hd⟩ := sumAxis_indicator a x hlen hx
+  obtain ⟨hcs, hcd⟩ := hc
+  rw [hs] at hcs hcd
+  simp only [dropIdx_removeAt x A hxA] at hcs hcd
+  refine ⟨hcs, ?_⟩
+  rw [hcd]
+  apply List.map_congr_left
+  intro u _
+  simp only [← dropIdx_removeAt x A hxA (unflat a.shape _)]
+  have hget : ∀ t ∈ range (size (removeAt a.shape x)),
+      (if dropIdx (A.map (fun y => if y > x then y - 1 else y)) (unflat (removeAt a.shape x) t)
+            = unflat (dropIdx (x :: A) a.shape) u then (a.sumAxis x).data.getD t 0 else 0)
+      = (if dropIdx (A.map (fun y => if y > x then y - 1 else y)) (unflat (removeAt a.shape x) t)
+            = unflat (dropIdx (x :: A) a.shape) u then
+          ∑ f ∈ range (size a.shape),
+            (if removeAt (unflat a.shape f) x = unflat (removeAt a.shape x) t then a.data.getD f 0 else 0)
+          else 0) := by
+    intro t ht
+    have ht' := mem_range.mp ht
+    rw [hd, List.getD_eq_getElem?_getD, List.getElem?_map, List.getElem?_range ht']
+    rfl
+  rw [Finset.sum_congr rfl hget]
+  rw [sum_indicator_comp (size a.shape) (size (removeAt a.shape x))
+    (fun t => dropIdx (A.map (fun y => if y > x then y - 1 else y)) (unflat (removeAt a.shape x) t)
+            = unflat (dropIdx (x :: A) a.shape) u)
+    (fun f t => removeAt (unflat a.shape f) x = unflat (removeAt a.shape x) t)
+    (fun f => a.data.getD f 0)
+    (fun f => flat (removeAt a.shape x) (removeAt (unflat a.shape f) x))
+    (fun f hf => flat_lt _ _ (removeAt_inB _ _ x (unflat_inB _ _ hf)))
+    (fun f hf t ht => removeAt_unflat_eq_iff _ _ _ _ hf ht)]
+  apply Finset.sum_congr rfl
+  intro f hf
+  rw [unflat_flat _ _ (removeAt_inB _ _ x (unflat_inB _ _ (mem_range.mp hf)))]
+
+/-! ### `marginalize_unchecked` on a strictly increasing list -/
+
+theorem foldl_zipIdx_succ {α} [Add α] [OfNat α 0] : ∀ (xs : List Nat) (b : Arr α) (k : Nat),
+    (xs.zipIdx (k + 1)).foldl (fun sp (p : Nat × Nat) => sp.sumAxis (p.1 - p.2)) b
+      = ((xs.map (· - 1)).zipIdx k).foldl (fun sp (p : Nat × Nat) => sp.sumAxis (p.1 - p.2)) b
+  | [], _, _ => rfl
+  | y :: xs, b, k => by
+    simp only [List.map_cons, List.zipIdx_cons, List.foldl_cons]
+    rw [show y - (k + 1) = y - 1 - k by omega]
+    exact foldl_zipIdx_succ xs _ (k + 1)
+
+theorem marginalizeUnchecked_nil {α} [Add α] [OfNat α 0] (a : Arr α) : marginalizeUnchecked a [] = a := rfl
+
+theorem marginalizeUnchecked_cons {α} [Add α] [OfNat α 0] (a : Arr α) (x : Nat) (xs : List Nat) :
+    marginalizeUnchecked a (x :: xs) = marginalizeUnchecked (a.sumAxis x) (xs.map (· - 1)) := by
+  unfold marginalizeUnchecked
+  rw [List.zipIdx_cons, List.foldl_cons, Nat.zero_add, foldl_zipIdx_succ]
+  rfl
+
+theorem map_pred_eq_shift (x : Nat) (xs : List Nat) (h : ∀ y ∈ xs, x < y) :
+    xs.map (· - 1) = xs.map (fun y => if y > x then y - 1 else y) := by
+  apply List.map_congr_left
+  intro y hy
+  rw [if_pos (h y hy)]
+
+theorem marginalizeUnchecked_spec {α} [AddCommMonoid α] : ∀ (l : List Nat) (a : Arr α),
+    l.Pairwise (· < ·) → (∀ y ∈ l, y < a.shape.length) → a.data.length = size a.shape →
+    IsMarg l a (marginalizeUnchecked a l) ∧ (marginalizeUnchecked a l).data.sum = a.data.sum
+  | [], a, _, _, hlen => ⟨IsMarg_nil a hlen, rfl⟩
+  | x :: xs, a, hp, hb, hlen => by
+    have hx : x < a.shape.length := hb x List.mem_cons_self
+    have hgt : ∀ y ∈ xs, x < y := (List.pairwise_cons.mp hp).1
+    have hxA : x ∉ xs := fun h => Nat.lt_irrefl _ (hgt x h)
+    obtain ⟨hs, _⟩ := sumAxis_indicator a x hlen hx
+    have ih := marginalizeUnchecked_spec (xs.map (· - 1)) (a.sumAxis x)
+      (by
+        rw [List.pairwise_map]
+        exact (List.pairwise_cons.mp hp).2.imp_of_mem (fun {p q} hp' hq' hpq => by
+          have := hgt p hp'; have := hgt q hq'; omega))
+      (by
+        intro y hy
+        obtain ⟨z, hz, rfl⟩ := List.mem_map.mp hy
+        have := hgt z hz
+        have := hb z (List.mem_cons_of_mem _ hz)
+        rw [hs, removeAt_length _ _ hx]; omega)
+      (sumAxis_data_length a x hlen hx)
+    rw [marginalizeUnchecked_cons]
+    refine ⟨?_, ?_⟩
+    · apply IsMarg_step a _ x xs hlen hx hxA
+      rw [← map_pred_eq_shift x xs hgt]
+      exact ih.1
+    · rw [ih.2, sumAxis_mass a x hlen hx]
+termination_by l => l.length
+decreasing_by simp
+
+/-! ### decision logic: duplicates, sortedness, sorting -/
+
+theorem firstDuplicate_eq_none_iff : ∀ (l : List Nat), firstDuplicate l = none ↔ l.Nodup
+  | [] => by simp [firstDuplicate]
+  | x :: l => by
+    have ih := firstDuplicate_eq_none_iff l
+    by_cases h : x ∈ l
+    · simp [firstDuplicate, h]
+    · simp [firstDuplicate, h, ih]
+
+theorem firstDuplicate_some_count : ∀ (l : List Nat) (d : Nat), firstDuplicate l = some d → 2 ≤ l.count d
+  | [], d, h => by simp [firstDuplicate] at h
+  | x :: l, d, h => by
+    by_cases hx : x ∈ l
+    · simp only [firstDuplicate, List.contains_eq_mem, hx, decide_true, if_true, Option.some.injEq] at h
+      subst h
+      have := List.count_pos_iff.mpr hx
+      rw [List.count_cons_self]; omega
+    · simp only [firstDuplicate, List.contains_eq_mem, hx, decide_false] at h
+      have := firstDuplicate_some_count l d h
+      have := List.count_le_count_cons (a := d) (b := x) (l := l)
+      omega
+
+theorem isSortedLe_iff : ∀ (l : List Nat), isSortedLe l = true ↔ l.Pairwise (· ≤ ·)
+  | [] => by simp [isSortedLe]
+  | [x] => by simp [isSortedLe]
+  | x :: y :: l => by
+    have ih := isSortedLe_iff (y :: l)
+    simp only [isSortedLe, Bool.and_eq_true, decide_eq_true_eq, ih]
+    constructor
+    · rintro ⟨hxy, hp⟩
+      refine List.pairwise_cons.mpr ⟨?_, hp⟩
+      intro z hz
+      rcases List.mem_cons.mp hz with rfl | hz
+      · exact hxy
+      · exact Nat.le_trans hxy ((List.pairwise_cons.mp hp).1 z hz)
+    · intro hp
+      exact ⟨(List.pairwise_cons.mp hp).1 y List.mem_cons_self, (List.pairwise_cons.mp hp).2⟩
+
+theorem insertNat_perm (x : Nat) : ∀ (l : List Nat), (insertNat x l).Perm (x :: l)
+  | [] => List.Perm.refl _
+  | y :: l => by
+    by_cases h : x ≤ y
+    · simp only [insertNat, h, if_true]; exact List.Perm.refl _
+    · simp only [insertNat, h, if_false]
+      exact ((insertNat_perm x l).cons y).trans (List.Perm.swap x y l)
+
+theorem sortNat_perm : ∀ (l : List Nat), (sortNat l).Perm l
+  | [] => List.Perm.refl _
+  | x :: l => (insertNat_perm x (sortNat l)).trans ((sortNat_perm l).cons x)
+
+theorem insertNat_sorted (x : Nat) : ∀ (l : List Nat), l.Pairwise (· ≤ ·) → (insertNat x l).Pairwise (· ≤ ·)
+  | [], _ => by simp [insertNat]
+  | y :: l, hp => by
+    by_cases h : x ≤ y
+    · simp only [insertNat, h, if_true]
+      refine List.pairwise_cons.mpr ⟨?_, hp⟩
+      intro z hz
+      rcases List.mem_cons.mp hz with rfl | hz
+      · exact h
+      · exact Nat.le_trans h ((List.pairwise_cons.mp hp).1 z hz)
+    · simp only [insertNat, h, if_false]
+      refine List.pairwise_cons.mpr ⟨?_, insertNat_sorted x l (List.pairwise_cons.mp hp).2⟩
+      intro z hz
+      rcases List.mem_cons.mp ((insertNat_perm x l).subset hz) with rfl | hz
+      · omega
+      · exact (List.pairwise_cons.mp hp).1 z hz
+
+theorem sortNat_sorted : ∀ (l : List Nat), (sortNat l).Pairwise (· ≤ ·)
+  | [] => List.Pairwise.nil
+  | x :: l => insertNat_sorted x _ (sortNat_sorted l)
+
+theorem sorted_perm_eq {l₁ l₂ : List Nat} (h₁ : l₁.Pairwise (· ≤ ·)) (h₂ : l₂.Pairwise (· ≤ ·))
+    (hp : l₁.Perm l₂) : l₁ = l₂ :=
+  List.Perm.eq_of_pairwise (le := (· ≤ ·)) (fun _ _ _ _ h1 h2 => Nat.le_antisymm h1 h2) h₁ h₂ hp
+
+theorem sortNat_eq_self (l : List Nat) (h : l.Pairwise (· ≤ ·)) : sortNat l = l :=
+  sorted_perm_eq (sortNat_sorted l) h (sortNat_perm l)
+
+theorem sortNat_eq_of_perm {l₁ l₂ : List Nat} (hp : l₁.Perm l₂) : sortNat l₁ = sortNat l₂ :=
+  sorted_perm_eq (sortNat_sorted l₁) (sortNat_sorted l₂)
+    ((sortNat_perm l₁).trans (hp.trans (sortNat_perm l₂).symm))
+
+theorem sortNat_strict (l : List Nat) (hnd : l.Nodup) : (sortNat l).Pairwise (· < ·) := by
+  have h1 := sortNat_sorted l
+  have h2 : (sortNat l).Nodup := (sortNat_perm l).symm.nodup hnd
+  exact (h1.and h2).imp (fun ⟨hle, hne⟩ => Nat.lt_of_le_of_ne hle hne)
+
+/-- On valid input `marginalize` is `marginalize_unchecked` on the sorted axes (both branches). -/
+theorem marginalize_ok {α} [Add α] [OfNat α 0] (a : Arr α) (axes : List Nat) (hnd : axes.Nodup)
+    (hb : ∀ ax ∈ axes, ax < a.shape.length) (hl : axes.length < a.shape.length) :
+    marginalize a axes = .ok (marginalizeUnchecked a (sortNat axes)) := by
+  unfold marginalize
+  rw [(firstDuplicate_eq_none_iff axes).mpr hnd]
+  have hf : axes.find? (fun ax => decide (ax ≥ a.shape.length)) = none := by
+    rw [List.find?_eq_none]
+    intro x hx
+    have := hb x hx
+    simp; omega
+  simp only [hf]
+  rw [if_neg (by omega)]
+  by_cases hs : isSortedLe axes = true
+  · rw [if_pos hs, sortNat_eq_self axes ((isSortedLe_iff axes).mp hs)]
+  · rw [if_neg hs]
+
+theorem marginalize_too_many {α} [Add α] [OfNat α 0] (a : Arr α) (axes : List Nat) (hnd : axes.Nodup)
+    (hb : ∀ ax ∈ axes, ax < a.shape.length) (hl : a.shape.length ≤ axes.length) :
+    marginalize a axes = .error (.tooManyAxes axes.length a.shape.length) := by
+  unfold marginalize
+  rw [(firstDuplicate_eq_none_iff axes).mpr hnd]
+  have hf : axes.find? (fun ax => decide (ax ≥ a.shape.length)) = none := by
+    rw [List.find?_eq_none]
+    intro x hx
+    have := hb x hx
+    simp; omega
+  simp only [hf]
+  rw [if_pos hl]
+
+theorem marginalize_ok_inv {α} [Add α] [OfNat α 0] (a b : Arr α) (axes : List Nat)
+    (h : marginalize a axes = .ok b) :
+    axes.Nodup ∧ (∀ ax ∈ axes, ax < a.shape.length) ∧ axes.length < a.shape.length := by
+  unfold marginalize at h
+  cases hd : firstDuplicate axes with
+  | some d => rw [hd] at h; cases h
+  | none =>
+    rw [hd] at h
+    cases hf : axes.find? (fun ax => decide (ax ≥ a.shape.length)) with
+    | some ax => simp only [hf] at h; cases h
+    | none =>
+      simp only [hf] at h
+      by_cases hl : axes.length ≥ a.shape.length
+      · rw [if_pos hl] at h; cases h
+      · refine ⟨(firstDuplicate_eq_none_iff axes).mp hd, ?_, by omega⟩
+        intro ax hax
+        have := (List.find?_eq_none.mp hf) ax hax
+        simpa using this
+
+theorem marginalize_isMarg {α} [AddCommMonoid α] (a : Arr α) (axes : List Nat)
+    (hlen : a.data.length = size a.shape) (hnd : axes.Nodup)
+    (hb : ∀ ax ∈ axes, ax < a.shape.length) :
+    IsMarg axes a (marginalizeUnchecked a (sortNat axes)) ∧
+      (marginalizeUnchecked a (sortNat axes)).data.sum = a.data.sum := by
+  have h := marginalizeUnchecked_spec (sortNat axes) a (sortNat_strict axes hnd)
+    (fun y hy => hb y ((sortNat_perm axes).subset hy)) hlen
+  exact ⟨h.1.congr (fun i => (sortNat_perm axes).mem_iff), h.2⟩
+
+/-! ### one axis first, then the re-indexed others -/
+
+theorem marginalize_single {α} [AddCommMonoid α] (a : Arr α) (x : Nat)
+    (hx : x < a.shape.length) (hl : 1 < a.shape.length) : marginalize a [x] = .ok (a.sumAxis x) := by
+  rw [marginalize_ok a [x] (List.nodup_singleton x) (by simpa using hx) (by simpa using hl)]
+  rfl
+
+theorem shift_valid (x : Nat) (rest : List Nat) (n : Nat) (hnd : (x :: rest).Nodup)
+    (hb : ∀ ax ∈ x :: rest, ax < n) :
+    (rest.map (fun y => if y > x then y - 1 else y)).Nodup ∧
+      ∀ ax ∈ rest.map (fun y => if y > x then y - 1 else y), ax < n - 1 := by
+  have hxr : x ∉ rest := (List.nodup_cons.mp hnd).1
+  have hx := hb x List.mem_cons_self
+  constructor
+  · unfold List.Nodup
+    rw [List.pairwise_map]
+    refine (List.nodup_cons.mp hnd).2.imp_of_mem ?_
+    intro p q hp hq hpq
+    have : p ≠ x := fun h => hxr (h ▸ hp)
+    have : q ≠ x := fun h => hxr (h ▸ hq)
+    by_cases h1 : p > x <;> by_cases h2 : q > x <;> simp only [h1, h2, if_true, if_false] <;> omega
+  · intro ax hax
+    obtain ⟨y, hy, rfl⟩ := List.mem_map.mp hax
+    have := hb y (List.mem_cons_of_mem _ hy)
+    have : y ≠ x := fun h => hxr (h ▸ hy)
+    by_cases h1 : y > x <;> simp only [h1, if_true, if_false] <;> omega
+
+theorem marginalize_stepwise_aux {α} [AddCommMonoid α] (a : Arr α) (x : Nat) (rest : List Nat)
+    (hlen : a.data.length = size a.shape) (hnd : (x :: rest).Nodup)
+    (hb : ∀ ax ∈ x :: rest, ax < a.shape.length) (hl : (x :: rest).length < a.shape.length) (hr : rest ≠ []) :
+    marginalize a (x :: rest) =
+      (match marginalize a [x] with
+       | .ok b => marginalize b (rest.map (fun y => if y > x then y - 1 else y))
+       | .error e => .error e) := by
+  have hx := hb x List.mem_cons_self
+  have hxr : x ∉ rest := (List.nodup_cons.mp hnd).1
+  have hrl : 0 < rest.length := List.length_pos_iff.mpr hr
+  simp only [List.length_cons] at hl
+  rw [marginalize_single a x hx (by omega)]
+  simp only []
+  obtain ⟨hs, _⟩ := sumAxis_indicator a x hlen hx
+  obtain ⟨hnd', hb'⟩ := shift_valid x rest a.shape.length hnd hb
+  have hlen' := sumAxis_data_length a x hlen hx
+  have hshl : (a.sumAxis x).shape.length = a.shape.length - 1 := by rw [hs, removeAt_length _ _ hx]
+  rw [marginalize_ok a (x :: rest) hnd hb (by simpa using hl),
+    marginalize_ok (a.sumAxis x) _ hnd' (by rw [hshl]; exact hb') (by rw [hshl, List.length_map]; omega)]
+  congr 1
+  have h1 := (marginalize_isMarg a (x :: rest) hlen hnd hb).1
+  have h2 := (marginalize_isMarg (a.sumAxis x) _ hlen' hnd' (by rw [hshl]; exact hb')).1
+  exact h1.unique (IsMarg_step a _ x rest hlen hx hxr h2)
 
 end Sfs
